@@ -99,6 +99,16 @@ Qed.
 (** ---- phase R, fault free: closed form *)
 Definition nofault : name -> bool := fun _ => false.
 
+Lemma existsb_nofault (l : list name) : existsb nofault l = false.
+Proof. induction l as [|a l IH]; [reflexivity | exact IH]. Qed.
+(** without a failing rename the toDelete loop runs (whatever [skip] is) *)
+Lemma finish_ops_gen_ff skip b ro dl df tf :
+  finish_ops_gen skip b ro dl nofault df tf = rename_ops ro nofault ++ delete_ops b dl df tf.
+Proof. unfold finish_ops_gen. rewrite existsb_nofault, andb_false_r. reflexivity. Qed.
+Lemma finish_ops_ff b ro dl df tf :
+  finish_ops b ro dl nofault df tf = rename_ops ro nofault ++ delete_ops b dl df tf.
+Proof. apply finish_ops_gen_ff. Qed.
+
 Lemma rename_phase : forall l f,
   NoDup l -> (forall a, In a l -> is_tmp a = false) -> (forall a, In a l -> f (tmp_of a) = Some (Data GNew)) ->
   forall x, is_tmp x = false ->
@@ -183,7 +193,7 @@ Lemma prefix_closed_form b w ro dl k :
     else if memname x (firstn (k - length w) ro) then Some (Data GNew) else fs0 b x.
 Proof.
   intros Hw Hrdy Hnd Hsub Hplain x Hx.
-  unfold run_ops, finish_ops. rewrite delete_ops_plain by exact Hplain.
+  unfold run_ops. rewrite finish_ops_ff. rewrite delete_ops_plain by exact Hplain.
   rewrite firstn_app, firstn_app. unfold rename_ops at 2. rewrite map_length.
   unfold rename_ops, remove_ops. rewrite !firstn_map.
   fold (rename_ops (firstn (k - length w) ro) nofault). fold (remove_ops (firstn (k - length w - length ro) dl)).
@@ -407,7 +417,7 @@ Qed.
 
 Lemma run_ops_length b w ro dl : plain_dl b dl -> length (run_ops b w ro dl) = length w + length ro + length dl.
 Proof.
-  intro Hp. unfold run_ops, finish_ops. rewrite delete_ops_plain by exact Hp.
+  intro Hp. unfold run_ops. rewrite finish_ops_ff. rewrite delete_ops_plain by exact Hp.
   rewrite !app_length. unfold rename_ops, remove_ops. rewrite !map_length. lia.
 Qed.
 
@@ -608,7 +618,7 @@ Lemma state_closed_tomb b w ro dl k x :
     if (3 <=? k - length w - length ro) && name_eqb x (Meta SComp) then Some (Data GNew)
     else if memname x (firstn (k - length w) ro) then Some (Data GNew) else fs0 b x.
 Proof.
-  intros Ht H Hx. unfold state_at, run_ops, finish_ops.
+  intros Ht H Hx. unfold state_at, run_ops. rewrite finish_ops_ff.
   assert (Hsub : forall a, In a ro -> In a (artifacts b)).
   { intros a Ha. eapply Permutation_in; [apply (ff_ro _ _ _ _ H) | exact Ha]. }
   pose proof (ff_dl _ _ _ _ H) as Hdl. rewrite (todel_after_tomb b ro nofault Ht Hsub) in Hdl.
@@ -674,7 +684,7 @@ Qed.
 Lemma run_ops_length_tomb b w ro dl :
   tomb_build b -> ff_run b w ro dl -> length (run_ops b w ro dl) = length w + length ro + 3.
 Proof.
-  intros Ht H. unfold run_ops, finish_ops.
+  intros Ht H. unfold run_ops. rewrite finish_ops_ff.
   assert (Hsub : forall a, In a ro -> In a (artifacts b)).
   { intros a Ha. eapply Permutation_in; [apply (ff_ro _ _ _ _ H) | exact Ha]. }
   pose proof (ff_dl _ _ _ _ H) as Hdl. rewrite (todel_after_tomb b ro nofault Ht Hsub) in Hdl.
@@ -720,16 +730,31 @@ Proof.
   assert (existsb p l = true) by (apply existsb_exists; exists x; split; assumption). congruence.
 Qed.
 
+Lemma rename_ops_no_fault ro rf : existsb rf ro = false -> rename_ops ro rf = rename_ops ro nofault.
+Proof.
+  intro Hr. pose proof (existsb_false_forall _ _ Hr) as Hrf.
+  unfold rename_ops. apply map_ext_in. intros a Ha. rewrite (Hrf a Ha). reflexivity.
+Qed.
+Lemma todel_after_no_fault b ro rf : existsb rf ro = false -> todel_after b ro rf = todel_after b ro nofault.
+Proof.
+  intro Hr. pose proof (existsb_false_forall _ _ Hr) as Hrf. unfold todel_after.
+  assert (Hex : forall x, existsb (fun a => name_eqb x a && negb (rf a)) ro = existsb (fun a => name_eqb x a && negb (nofault a)) ro).
+  { intro x. clear Hr. induction ro as [|a ro IH]; [reflexivity|]. cbn [existsb].
+    rewrite (Hrf a (or_introl eq_refl)). rewrite IH; [reflexivity|]. intros y Hy. apply Hrf. right. exact Hy. }
+  apply filter_ext. intro x. rewrite Hex. reflexivity.
+Qed.
+
 Lemma success_means_fault_free b ro dl rf df tf :
   finish_err b ro dl rf df tf = false ->
   finish_ops b ro dl rf df tf = finish_ops b ro dl nofault nofault TNone /\
   todel_after b ro rf = todel_after b ro nofault.
 Proof.
-  unfold finish_err. rewrite delete_err_fold_false. intro H. apply orb_false_iff in H. destruct H as [Hr Hd].
-  pose proof (existsb_false_forall _ _ Hr) as Hrf. pose proof (existsb_false_forall _ _ Hd) as Hdf.
+  unfold finish_err, finish_err_gen. cbn [andb]. destruct (existsb rf ro) eqn:Hr; [discriminate|].
+  rewrite delete_err_fold_false. cbn [orb]. intro Hd.
+  pose proof (existsb_false_forall _ _ Hd) as Hdf.
   split.
-  - unfold finish_ops. f_equal.
-    + unfold rename_ops. apply map_ext_in. intros a Ha. rewrite (Hrf a Ha). reflexivity.
+  - rewrite finish_ops_ff. unfold finish_ops, finish_ops_gen. rewrite Hr. cbn [andb]. f_equal.
+    + apply rename_ops_no_fault. exact Hr.
     + unfold delete_ops.
       assert (Hext : forall l, (forall p, In p l -> snd (del_step b df tf p) = false) ->
                           flat_map (fun p => fst (del_step b df tf p)) l = flat_map (fun p => fst (del_step b nofault TNone p)) l).
@@ -740,11 +765,7 @@ Proof.
           + cbn in Hl. rewrite Hl. reflexivity.
         - apply IH. intros q Hq. apply Hl. right. exact Hq. }
       apply Hext. exact Hdf.
-  - unfold todel_after.
-    assert (Hex : forall x, existsb (fun a => name_eqb x a && negb (rf a)) ro = existsb (fun a => name_eqb x a && negb (nofault a)) ro).
-    { intro x. clear Hr. induction ro as [|a ro IH]; [reflexivity|]. cbn [existsb].
-      rewrite (Hrf a (or_introl eq_refl)). rewrite IH; [reflexivity|]. intros y Hy. apply Hrf. right. exact Hy. }
-    apply filter_ext. intro x. rewrite Hex. reflexivity.
+  - apply todel_after_no_fault. exact Hr.
 Qed.
 
 Lemma success_complete b w ro dl rf df tf :
@@ -784,9 +805,10 @@ Lemma deletes_after_renames b ro dl rf df tf i j o1 o2 :
   nth_error (finish_ops b ro dl rf df tf) j = Some o2 -> is_install_rename o2 = true ->
   j < i.
 Proof.
-  intros Hsub H1 Hr H2 Hi. unfold finish_ops in *.
+  intros Hsub H1 Hr H2 Hi. unfold finish_ops, finish_ops_gen in *.
   destruct (le_lt_dec (length (rename_ops ro rf)) j) as [Hj|Hj].
   - rewrite nth_error_app2 in H2 by exact Hj. apply nth_error_In in H2.
+    destruct (true && existsb rf ro); [contradiction|].
     apply delete_ops_no_install in H2. congruence.
   - destruct (le_lt_dec (length (rename_ops ro rf)) i) as [Hi'|Hi']; [lia|].
     rewrite nth_error_app1 in H1 by exact Hi'. apply nth_error_In in H1.
